@@ -324,7 +324,10 @@ def run(ctx):
                     "a detection read of rawStream can reach the function's exit without a seek (path %s): the decoder would "
                     "start in the middle of the input" % (bad[0][1][:5] if bad else ""), detail={"function": q})
     rd = [c for c in walk_no_nested(meta.node) if isinstance(c, ast.Call) and norm(c.func) == "self.rawStream.read"]
-    r.idiom("C06.5", len(rd) == 1 and norm(rd[0].args[0]) == "self.numBytesMeta", "prescan-length-expr", meta.where,
+    # first read asks for numBytesMeta; further reads (completing a short one) ask for what is still missing
+    first_ok = bool(rd) and norm(sorted(rd, key=lambda c: c.lineno)[0].args[0]) == "self.numBytesMeta"
+    rest_ok = all(norm(c.args[0]).startswith("self.numBytesMeta - len(") for c in sorted(rd, key=lambda c: c.lineno)[1:])
+    r.idiom("C06.5", first_ok and rest_ok, "prescan-length-expr", meta.where,
             "the prescan does not read exactly self.numBytesMeta bytes")
     nb = [n for n in ast.walk(init.node) if isinstance(n, ast.Assign) and attr_chain(n.targets[0]) == ["self", "numBytesMeta"]]
     r.idiom("C06.5", len(nb) == 1 and isinstance(nb[0].value, ast.Constant) and nb[0].value.value == 1024, "prescan-1024",
@@ -349,6 +352,7 @@ def run(ctx):
     prescan_byte_sets(ctx)
     prescan_meta_table(ctx)
     decoder_end_of_input(ctx)
+    prescan_buffer_complete(ctx)
     # C06.15: the content= extraction returns "nothing" or a label; an exception leaving it would be taken by getEncoding's
     # bracket for the end of the buffer and end the whole pre-scan, hiding every later <meta>
     r.rule("C06.15", "no StopIteration / ValueError leaves ContentAttrParser.parse (it would end the pre-scan instead of moving to the next attribute)", floor=1)
@@ -683,6 +687,32 @@ def bom_read_and_seek(ctx, rid_seek="C06.12", rid_read="C06.13"):
             detail={"reads": len(reads), "in_loop": bool(loops)})
 
 
+def prescan_buffer_complete(ctx, rid="C06.20"):
+    """C06.20: "the WHATWG prescan of the first 1024 bytes" must see 1024 bytes (or the whole input): a read(n) on a pipe / socket /
+    HTTP body may legally return fewer, so the buffer has to be completed by reading on -- like detectBOM does (C06.13) -- or the
+    same bytes select different encodings depending on how they arrive."""
+    r = ctx.r
+    r.rule(rid, "the pre-scan buffer is completed across short reads (numBytesMeta bytes or end of input)", floor=1)
+    f = ctx.repo.func(REL, "HTMLBinaryInputStream.detectEncodingMeta")
+    reads = [c for c in ast.walk(f.node) if isinstance(c, ast.Call) and norm(c.func).endswith("rawStream.read")]
+    loops = [w for w in ast.walk(f.node) if isinstance(w, ast.While) and any(c in list(ast.walk(w)) for c in reads)]
+    # a helper that does the looping (shared with detectBOM, say) is inlined one level
+    helper_loops = False
+    cls = ctx.repo.cls(REL, "HTMLBinaryInputStream")
+    for c in ast.walk(f.node):
+        if isinstance(c, ast.Call) and isinstance(c.func, ast.Attribute) and norm(c.func.value) == "self":
+            h = cls.find_method(c.func.attr)
+            if h is not None and any(isinstance(w, ast.While) and any(isinstance(x, ast.Call) and norm(x.func).endswith("rawStream.read")
+                                                                      for x in ast.walk(w)) for w in ast.walk(h.node)):
+                helper_loops = True
+    r.idiom(rid, bool(loops) or helper_loops, "prescan-read-completed", f.where, "detectEncodingMeta: how the pre-scan buffer is read was not recognised",
+            wrong=[(len(reads) == 1 and not loops and not helper_loops,
+                    "detectEncodingMeta looks at the result of a single read(numBytesMeta): for a source that delivers the bytes in pieces the "
+                    "pre-scan sees only the first piece -- `<script><meta charset=koi8-r></script>` delivered 16 bytes at a time is "
+                    "windows-1252, the same bytes as a bytes object are koi8-r")],
+            detail={"reads": len(reads), "in_loop": bool(loops) or helper_loops})
+
+
 def label_decoding(ctx):
     """C06.11: an encoding label found in the byte stream is ASCII; a label with non-ASCII bytes is not a label (the prescan then
     keeps looking / the next source of the precedence applies).  Dropping or replacing the offending bytes turns garbage such as
@@ -824,6 +854,8 @@ def meta_rules(ctx):
                     return conf
                 if t == "self.parser.tokenizer.stream.charEncoding":
                     return ("x", conf)
+                if isinstance(node, ast.Call) and norm(node.func).endswith("lookupEncoding") and len(node.args) == 1:
+                    return None if ce.eval(node.args[0], f.module, local) == "bogus" else "ENC"
                 return NotImplemented
             interp = MiniInterp(ce, f.module, expr_hook=hook)
             key = "late-meta[%s %s]" % (conf, label)
@@ -839,6 +871,31 @@ def meta_rules(ctx):
                     % (" ".join("%s=%r" % kv for kv in attrs.items()), conf, "asks for" if changes else "does not ask for",
                        "does" if exp else "does not"), {"attrs": attrs, "confidence": conf},
                     detail={"attrs": attrs, "confidence": conf, "changeEncoding": bool(changes)})
+    # a charset attribute that names no encoding does not count: the standard goes on to the http-equiv / content pair ("if the
+    # element has a charset attribute, *and getting an encoding from its value results in an encoding*"); changeEncoding() with
+    # an unknown label does nothing, so deciding on the mere presence of the attribute loses the declaration
+    def hook2(node, local):
+        t = norm(node)
+        if t == "self.parser.tokenizer.stream.charEncoding[1]":
+            return "tentative"
+        if t == "self.parser.tokenizer.stream.charEncoding":
+            return ("x", "tentative")
+        if isinstance(node, ast.Call) and norm(node.func).endswith("lookupEncoding") and len(node.args) == 1:
+            v = ce.eval(node.args[0], f.module, local)
+            return None if v == "bogus" else "ENC"
+        return NotImplemented
+    key = "late-meta[tentative charset-unknown-with-pragma]"
+    attrs = {"charset": "bogus", "http-equiv": "content-type", "content": "text/html; charset=x"}
+    try:
+        res = MiniInterp(ce, f.module, expr_hook=hook2).run(f.node.body, {tok: {"type": 3, "name": "meta", "data": dict(attrs), "selfClosing": False}, "self": Opaque("self")})
+        calls = [c for e in res.effects for c in ast.walk(e.node) if isinstance(c, ast.Call) and norm(c.func).endswith("changeEncoding")]
+        from_pragma = [c for c in calls if c.args and "'charset'" not in norm(c.args[0])]
+        r.check("C06.7", bool(from_pragma), key, f.where,
+                "<meta charset=bogus http-equiv=content-type content='text/html; charset=koi8-r'> seen by the tree builder while the encoding is "
+                "tentative: html5lib asks for %s; the unknown label does nothing and the valid pragma next to it is never looked at (the "
+                "standard falls back to it)" % ([norm(c) for c in calls] or "no encoding change"), {"attrs": attrs})
+    except AnalysisError as e:
+        r.idiom("C06.7", False, key, f.where, "startTagMeta not decidable for this case (%s)" % str(e)[:80])
     # (b)
     g = repo.func(REL, "EncodingParser.getAttribute")
     genv = ce.local_env(g.node, g.module)
@@ -1004,6 +1061,8 @@ def mutants():
                 "        charEncoding = lookupEncoding(self.transport_encoding), \"certain\"\n"
                 "        if charEncoding[0] is not None:\n            return charEncoding\n\n")
     return [
+        T("prescan-single-read", REL, "        # a source may hand the bytes out in pieces\n        while len(buffer) < self.numBytesMeta:\n            more = self.rawStream.read(self.numBytesMeta - len(buffer))\n            if not more:\n                break\n            buffer += more\n", "", "C06.20"),
+        T("late-meta-charset-presence-only", "html5parser.py", "            if (\"charset\" in attributes and\n                    _inputstream.lookupEncoding(attributes[\"charset\"]) is not None):", "            if \"charset\" in attributes:", "C06.7"),
         T("prescan-user-defined-unmapped", REL, "        elif encoding is not None and encoding.name == \"x-user-defined\":\n            encoding = lookupEncoding(\"windows-1252\")\n", "", "C06.16"),
         T("late-user-defined-unmapped", REL, "        elif newEncoding.name == \"x-user-defined\":\n            newEncoding = lookupEncoding(\"windows-1252\")\n            assert newEncoding is not None\n", "", "C06.16"),
         T("content-parser-bracket-narrowed", REL, "                    return self.data[oldPosition:]\n        except StopIteration:\n            return None",
@@ -1048,8 +1107,8 @@ def mutants():
           '            self.charEncoding = (newEncoding, "certain")', "C06.3"),
         T("reparse-no-reset", "html5parser.py", "        except _ReparseException:\n            self.reset()\n            self.mainLoop()",
           "        except _ReparseException:\n            self.mainLoop()", "C06.3"),
-        T("change-when-certain", "html5parser.py", '        if self.parser.tokenizer.stream.charEncoding[1] == "tentative":\n            if "charset" in attributes:',
-          '        if True:\n            if "charset" in attributes:', "C06.4"),
+        T("change-when-certain", "html5parser.py", '        if self.parser.tokenizer.stream.charEncoding[1] == "tentative":\n            if ("charset" in attributes and',
+          '        if True:\n            if ("charset" in attributes and', "C06.4"),
         T("same-encoding-not-confirmed", REL, "        if newEncoding == self.charEncoding[0]:\n            self.charEncoding = (self.charEncoding[0], \"certain\")",
           "        if newEncoding == self.charEncoding[0]:\n            return", "C06.4"),
         T("bom-no-seek", REL, "        else:\n            self.rawStream.seek(0)\n            return None", "        else:\n            return None", "C06.5"),
